@@ -156,6 +156,8 @@ class Terms:
             return ("const", ("named", name), name)
         if "zst" in k:
             return ("const", ("zst", k["ty"]))
+        if "static" in k:
+            return ("const", ("static", k["static"]))
         return ("unknown", "const")
 
     def operand(self, o, bb, idx):
